@@ -462,11 +462,14 @@ def write_evidence(ctx, violations, rule, extra_assumptions=None):
                                                      "implementation tied to the model only on the inputs generated in this run"],
         "wall_s": round(ctx.elapsed(), 2), "violations": violations,
     }
-    os.makedirs(os.path.join(VERIF, "evidence"), exist_ok=True)
-    tmp = os.path.join(VERIF, "evidence", ".%s.%d.tmp" % (ctx.pid, os.getpid()))
+    # evidence/<id>.json is only ever written by runs against /repo itself; development runs against a
+    # scratch worktree (VERIF_REPO) write to .scratch/evidence-dev/ instead
+    edir = os.path.join(VERIF, "evidence") if os.path.realpath(REPO) == "/repo" else os.path.join(SCRATCH_ROOT, "evidence-dev")
+    os.makedirs(edir, exist_ok=True)
+    tmp = os.path.join(edir, ".%s.%d.tmp" % (ctx.pid, os.getpid()))
     with open(tmp, "w") as f:
         json.dump(ev, f, indent=1, default=str)
-    os.replace(tmp, os.path.join(VERIF, "evidence", ctx.pid + ".json"))
+    os.replace(tmp, os.path.join(edir, ctx.pid + ".json"))
 
 
 def run_property(pid, mod, tier, seed, replay=None):
